@@ -32,7 +32,7 @@ from rv.usb2host import UTMIHost, init_device_signals
 from rv.ref import usb2 as U
 
 PROPERTY = "C29"
-CASES = {"quick": 480, "thorough": 7200}
+CASES = {"quick": 400, "thorough": 6400}
 RULE = ("case = (byte_width 1..8, max packet 8/16/32/64, endpoint 1..15, tx_ready profile, producer profile, host profile) "
         "+ 30-120 words with first/last/value/gap patterns and an IN-poll schedule with missing ACKs and pauses; "
         "non-trivial = words were stalled by a full byte endpoint, accepted back-to-back and carried first and last; "
@@ -279,6 +279,7 @@ def run_case(rng, tier, res):
         yield from host.idle(rng.randint(3, 30))
         naks = 0
         polls = 0
+        done_seen = False
         while polls < 3000:
             polls += 1
             if host_mode == "eager":
@@ -300,7 +301,12 @@ def run_case(rng, tier, res):
                 break
             # the tail of the stream stays buffered in the byte endpoint unless the stream ended with `last` or a full
             # packet: that is C11's business.  Stop once the producer is done and the endpoint has nothing to say.
-            if st["producer_done"] and naks >= 3:
+            if st["producer_done"] and not done_seen:
+                # NAKs counted while the producer was still running say nothing about the tail: start counting afresh
+                done_seen = True
+                naks = 0
+                yield from host.idle(2 * width + 8)
+            elif done_seen and naks >= 3:
                 break
         yield from host.idle(5)
 
